@@ -1,6 +1,6 @@
 (* C08 -- property theorems only.  Proofs live in C08/Proofs*.v. *)
 From Coq Require Import NArith List Bool Permutation.
-From DV Require Import Base.Outcome C08.Gen C08.Model C08.Spec C08.ProofsQuery C08.ProofsBuild C08.ProofsHist C08.ProofsGood C08.ProofsPlain C08.ProofsGroup C08.ProofsSafe.
+From DV Require Import Base.Outcome C08.Gen C08.Model C08.Spec C08.ProofsQuery C08.ProofsBuild C08.ProofsHist C08.ProofsGood C08.ProofsPlain C08.ProofsGroup C08.ProofsSafe C08.ProofsTree.
 Import ListNotations.
 Local Open Scope N_scope.
 
@@ -25,6 +25,42 @@ Theorem C08_build_answers_spec_records : forall rs, accepted rs = true -> wf_zon
                (forall o t, zf_rrset (zf_of_records rs) o t = group rs o t).
 Proof. exact build_answers_spec_records. Qed.
 Print Assumptions C08_build_answers_spec_records.
+
+Theorem C08_accepted_records_build : forall rs, accepted rs = true ->
+  wf_zone (zf_of_records rs) = buildable (zf_of_records rs) /\
+  snd (zf_build (zf_of_records rs)) = buildable (zf_of_records rs) /\
+  (buildable (zf_of_records rs) = true -> forall q qt, query (build rs) q qt = spec (zf_of_records rs) q qt).
+Proof. exact accepted_records_build. Qed.
+Print Assumptions C08_accepted_records_build.
+
+(* ZoneTree: the set of zones *)
+Theorem C08_zonetree_find_closest : forall q n, zt_find n q = last_some (map (zt_get n) (prefixes q)).
+Proof. exact zt_find_closest. Qed.
+Print Assumptions C08_zonetree_find_closest.
+
+Theorem C08_zonetree_insert_spec : forall p z n,
+  match zt_insert p z n with
+  | Ok n' => zt_get n p = None /\ forall p', zt_get n' p' = if name_eqb p' p then Some z else zt_get n p'
+  | Err e => e = E_ZoneExists /\ zt_get n p <> None
+  | _ => False
+  end.
+Proof. exact zt_insert_spec. Qed.
+Print Assumptions C08_zonetree_insert_spec.
+
+Theorem C08_zonetree_remove_spec_if_recursive : zremove_recursive = true -> forall p n,
+  match zt_remove p n with
+  | Ok n' => zt_get n p <> None /\ forall p', zt_get n' p' = if name_eqb p' p then None else zt_get n p'
+  | Err e => e = E_ZoneDoesNotExist /\ zt_get n p = None
+  | _ => False
+  end.
+Proof. exact zt_remove_spec_if_recursive. Qed.
+Print Assumptions C08_zonetree_remove_spec_if_recursive.
+
+Theorem C08_zonetree_remove_zone_not_recursive_refuted : zremove_recursive = false ->
+  exists t p p', zt_get t p = None /\ zt_get t p' <> None /\
+    match zt_remove p t with Ok t' => zt_get t' p' = None | _ => False end.
+Proof. exact zt_remove_refuted_if_not_recursive. Qed.
+Print Assumptions C08_zonetree_remove_zone_not_recursive_refuted.
 
 Theorem C08_any_answer_is_member : forall z q r, clean (n_special z) = None ->
   a_content (query z q rt_any) = AData r -> exists p x, node_at z p = Some x /\ In r (n_rrsets x).
@@ -90,6 +126,14 @@ Theorem C08_safe_history_independent : forall zs us t, zone_file_only zs = true 
   forall q qt, query (run (zs ++ us)) q qt = query t q qt.
 Proof. exact safe_history_independent. Qed.
 Print Assumptions C08_safe_history_independent.
+
+Theorem C08_safe_histories_confluent : forall zs us us', zone_file_only zs = true ->
+  forallb safe_op us = true -> forallb safe_op us' = true ->
+  (forall p, rrsets_at (run (zs ++ us)) p = rrsets_at (run (zs ++ us')) p) ->
+  cspecial_at (run zs) [] = None ->
+  forall q qt, query (run (zs ++ us)) q qt = query (run (zs ++ us')) q qt.
+Proof. exact safe_histories_confluent. Qed.
+Print Assumptions C08_safe_histories_confluent.
 
 Theorem C08_known_classes_break_representation : forall t zf p x, node_at t p = Some x ->
   (is_apex p || node_exists x = true -> clean (n_special x) <> i_special (info_at_g (zf_normal zf) zf p) -> ~ represents t zf) /\
